@@ -82,6 +82,7 @@ func legC19(e *Engine) []Violation {
 			cb.u.terms = cb.u.terms[:4]
 		}
 		var sg int
+		special := false
 		if i%6 == 0 {
 			// a term in a dozen documents with pairwise different frequencies, norms and locations
 			// under a chunk size of 3 or 4: iterators that leave a chunk from its middle (Advance)
@@ -106,6 +107,31 @@ func legC19(e *Engine) []Violation {
 				cb.q("iter", itoa(sg), hx(body), "78", "~", fl, "n", "a"+itoa(c1), "n", "n", "n", "n")
 				cb.q("iter", itoa(sg), hx(body), "78", "~", fl, "n", "n", "a"+itoa(c2), "n", "n", "a"+itoa(c2+int(cs)), "n")
 			}
+		} else if i%6 == 1 {
+			// two doc-value chunks, the later one fuller; one reader visits them back and forth.  A load
+			// that is cut short must not leave a cache that still answers for the chunk it held: a
+			// load of the EARLIER chunk leaves its first entries in front of surviving entries of the
+			// later chunk, in ascending order, so a binary search still finds them
+			tag := []byte("tag")
+			cb.u.fields = [][]byte{[]byte("_id"), tag}
+			cb.u.terms = [][]byte{[]byte("x")}
+			cb.u.dvOK = map[string]bool{"tag": true}
+			n := 1024 + r.Range(40, 70)
+			docs := make([]Doc, n)
+			for d := range docs {
+				val := []byte(fmt.Sprintf("v%d", d))
+				if d%3 == 0 {
+					val = append(val, []byte("-longer-value")...)
+				}
+				docs[d] = Doc{{Name: tag, Length: 1, DV: true, Terms: []TermOcc{{Term: val, Freq: 1}}}}
+				if d < 1024 && d%64 != 0 && d > 12 {
+					docs[d] = Doc{} // keep chunk 0's header short: fewer fault points
+				}
+			}
+			sg = cb.addBuild(docs, 1024, "hook")
+			cb.q("dv", itoa(sg), hx(tag), intList([]int{3, 1025, 4, 1026, 8, 0, n - 1, 64}))
+			cb.q("dv", itoa(sg), hx(tag), intList([]int{n - 1, n - 2, 3, 1024, 1025, 1026, 1027, 1028, 1029, 1030, 1031, 1032, 1033, 1034, 1036, 1040, n - 1, 64}))
+			special = true
 		} else if r.Chance(1, 2) {
 			sg, _ = cb.genMergePlan("tiny", false)
 		} else {
@@ -120,6 +146,9 @@ func legC19(e *Engine) []Violation {
 		// a read script over the one segment under test
 		cb.q("fields", itoa(sg))
 		for _, f := range cb.queryFields() {
+			if special {
+				break
+			}
 			cb.q("dict", itoa(sg), hx(f), "~", "~", "any")
 			for _, t := range cb.queryTerms()[:min(3, len(cb.queryTerms()))] {
 				cb.q("iter", itoa(sg), hx(f), hx(t), "~", "111", "w")
@@ -135,7 +164,7 @@ func legC19(e *Engine) []Violation {
 		for _, d := range cb.sampleDocs(cb.n[sg], 4) {
 			cb.q("stored", itoa(sg), itoa(d), "-1")
 		}
-		if cb.n[sg] > 0 {
+		if cb.n[sg] > 0 && !special {
 			cb.q("dv", itoa(sg), hxList(cb.queryFields()), intList(cb.sampleDocs(cb.n[sg], 4)))
 			cb.q("match", itoa(sg), hx(cb.u.fields[0])+":"+hx(cb.u.terms[0]), "6e6f7065:61")
 		}
